@@ -1334,6 +1334,11 @@ class Interp:
             if a0 is not None and a0[0] == "dict":
                 d.update(a0[1])
             elif a0 is not None:
+                # a closed list of (constant key, value) pairs: an ordinary dict
+                if a0[0] == "list" and not (len(a0) > 2 and a0[2]) and all(p[0] == "list" and len(p[1]) == 2 and p[1][0][0] == "c" and _hashable(p[1][0][1]) for p in a0[1]):
+                    for p in a0[1]:
+                        d[p[1][0][1]] = p[1][1]
+                    return ("dict", d)
                 return ("dict", {("dyn", 0): a0}, True)
             return ("dict", d)
         if name == "type" and len(args) == 1:
